@@ -220,8 +220,9 @@ def stage_of(exc):
 
 
 def feature_of(exc):
-    """A word from a small vocabulary refining the exception locus: the lowest uncovered tree node with its children's root
-    operators for 'tree not covered'; the sanitised message for NotImplementedError; the instruction class being built/encoded otherwise."""
+    """A word from a small vocabulary refining the exception locus.  'Tree not covered': the lowest tree node that no rule labels --
+    just its operator+type when the target has no rule for it at all, else with its children summarised as CONST/reg;
+    NotImplementedError: the kinds of the argument/location being handled; otherwise the instruction class being built/encoded."""
     from vf.core import CpuTimeout
     if isinstance(exc, CpuTimeout):
         return "cpu-timeout"
@@ -241,7 +242,8 @@ def feature_of(exc):
                 has_rules = True
             if not has_rules:
                 return "uncovered:%s" % u.name          # the target's pattern table has no rule at all for this operator+type
-            return "uncovered:%s(%s)" % (u.name, ",".join(c.name for c in u.children))
+            # rules exist but none applies (operand kind / constant class / condition): children are summarised as CONST or reg
+            return "uncovered:%s(%s)" % (u.name, ",".join("CONST" if c.name.startswith("CONST") else "reg" for c in u.children))
     msg = str(exc)
     m = re.search(r"Tree (\w+)", msg)
     if m and "not covered" in msg:
